@@ -551,6 +551,10 @@ int main(int argc, char **argv) {
     } else if (!strcmp(c, "debug")) {
       asm_set_debug(x->al, atoi(tok[2]) != 0);
       oputs("O\n");
+    } else if (!strcmp(c, "errno")) {
+      /* the ambient errno of the calling thread is process history too: a call's result must not depend on it */
+      errno = atoi(tok[2]);
+      oputs("O\n");
     } else if (!strcmp(c, "setoff")) {
       asm_set_offset(x->al, atoi(tok[2]));
       oputs("O\n");
